@@ -460,8 +460,17 @@ def bools(v):
 
 
 # ----------------------------------------------------------------- universe
-def load_universe(run, cfg, label):
-    res = run_tlc("ValLaws", cfg, coverage=False, timeout=3000)
+def tlc_parallel(jobs):
+    """jobs: [(module, cfg, kwargs)] -> results, the TLC processes running side by side"""
+    from concurrent.futures import ThreadPoolExecutor
+    with ThreadPoolExecutor(max_workers=len(jobs)) as ex:
+        futs = [ex.submit(run_tlc, m, c, **kw) for m, c, kw in jobs]
+        return [f.result() for f in futs]
+
+
+def load_universe(run, cfg, label, res=None):
+    if res is None:
+        res = run_tlc("ValLaws", cfg, coverage=False, timeout=3000)
     run.add_tlc(res, label)
     uv = {r["i"]: r for r in res.records("UVAL")}
     if not uv:
@@ -473,7 +482,7 @@ def load_universe(run, cfg, label):
     for i, r in uv.items():
         u["v"][i] = r["v"]
         u["os"][i] = r["os"]
-    for tag, fields in (("EQ", ("eq",)), ("LT", ("lt", "st")), ("TX", ("txt", "toks"))):
+    for tag, fields in (("EQ", ("eq",)), ("LT", ("lt", "st", "srt")), ("TX", ("txt", "toks"))):
         recs = {r["i"]: r for r in res.records(tag)}
         if recs:
             if sorted(recs) != list(range(1, n + 1)):
